@@ -17,6 +17,8 @@ pub struct Case {
     pub start: u32, pub chunks: Vec<Vec<u8>>, pub validate: bool, pub tag: String,
     /// seed of the peer's nonce used by the receiver when deriving keys (11 = the keys `sym_chunk` secures with)
     pub peer_nonce: u8,
+    /// put the channel's policy back before every chunk (C08: every chunk meets the same channel state)
+    pub reset_policy: bool,
 }
 
 // ---------------------------------------------------------------- status classes
@@ -191,7 +193,7 @@ pub fn mutate(v: &mut Vec<u8>, r: &mut Rng) -> &'static str {
 
 pub fn mk_case(policy: usize, mode: usize, chunks: Vec<Vec<u8>>, tag: &str) -> Case {
     Case { policy, mode, chan_id: 5, rid: 1, sid: 0, has_cert: policy != 0, has_pkey: policy != 0, has_keys: policy != 0,
-           start: 1, chunks, validate: false, tag: tag.to_string(), peer_nonce: 11 }
+           start: 1, chunks, validate: false, tag: tag.to_string(), peer_nonce: 11, reset_policy: false }
 }
 
 
@@ -347,6 +349,7 @@ pub fn exec_case(c: &Case) -> (String, Vec<i128>) {
             views.push(segs(&view));
 
             // -- the real receive path
+            if c.reset_policy { ch.set_security_policy(POLICIES[c.policy]); policy_now = c.policy; }
             match guarded(|| ch.verify_and_remove_security(real)) {
                 Ok(Ok(rc)) => { out.push(0); out.push(rc.data.len() as i128); if let Some(l) = received.as_mut() { l.push(rc); } }
                 Ok(Err(e)) => { out.push(class(e)); out.push(-1); received = None; }
